@@ -319,7 +319,7 @@ pub fn c12_inherent_adjacency_list_n3_t2() {
 }
 
 // ... with the thread count symbolic in 1..=4.
-// @verif prop=C12 tier=thorough fl=f2 role=inherent/adjacency-list t=3600 mem=30
+// @verif prop=C12 tier=exp fl=f2 role=inherent/adjacency-list t=3600 mem=30
 #[cfg_attr(kani, kani::proof)]
 #[cfg_attr(kani, kani::unwind(8))]
 pub fn c12_inherent_adjacency_list_n3_p4() {
@@ -348,7 +348,7 @@ pub fn c12_relations_n3() {
     relations::<3>();
 }
 
-// @verif prop=C12 tier=thorough fl=f1 feat=map4 role=relations/adjacency-map t=3600 mem=30
+// @verif prop=C12 tier=exp fl=f1 feat=map4 role=relations/adjacency-map t=3600 mem=30
 #[cfg_attr(kani, kani::proof)]
 #[cfg_attr(kani, kani::unwind(10))]
 pub fn c12_relations_map() {
@@ -357,7 +357,7 @@ pub fn c12_relations_map() {
 
 // @verif prop=C12 tier=thorough fl=f1 role=inherent/edge-list t=3600 mem=24
 #[cfg_attr(kani, kani::proof)]
-#[cfg_attr(kani, kani::unwind(8))]
+#[cfg_attr(kani, kani::unwind(16))]
 pub fn c12_inherent_edge_list_n4() {
     inherent::<EdgeList, 4>(1);
 }
